@@ -246,8 +246,10 @@ int start(m_mod_t *mod, bool starting) {
         tell_system_pubsub_msg(NULL, c, mod, M_PS_MOD_STARTED);
         break;
     case -1:
-        /* on_start() hook returned false, we need to stop this module right away */
-        stop(mod, true);
+        /* on_start() hook returned false, we need to stop this module right away (unless on_start() already stopped it) */
+        if (m_mod_is(mod, M_MOD_RUNNING | M_MOD_PAUSED)) {
+            stop(mod, true);
+        }
         ret = 0;
         break;
     case -ENOENT:
